@@ -13,12 +13,18 @@ LEVEL_NOTE = ("Model fidelity is checked by correspondence (≤ 8 ulp on window 
 OPS = {"apod", "apod_cfg", "pp_seq", "num_domains", "domains", "domain_lengths"}
 TOL = {"apod": ("ulp", 8), "apod_cfg": ("ulp", 1), "pp_seq": ("ulp", 1), "domains": ("ulp", 8), "domain_lengths": ("ulp", 8)}
 DEFAULT_TOL = ("exact",)
+# the model of `num_domains` IS the statement's closed form ⌈L/Λ⌉ (same float division): a disagreement is a failing input
+REFERENCE_OPS = {"num_domains": ("C19.domains", "domains/count")}
 RULE = ("family poling: a fixed lattice of kinds × widths × edge positions, then seeded random kinds/widths/positions (incl. ±1, ±0, "
         "just outside, infinities ⇒ panic class); 401/4001 positions per window for the evenness/range clauses; random sample lists for "
         "interpolation; periods giving 1…10^5 domains (exact multiples included) × all window kinds; random op sequences of length 1–8 "
         "over {new, with_period, assign_period, set_apodization, with_apodization} with zero, negative, infinite and extreme periods; "
         "3 of 4 periods come from a small per-sequence pool of magnitudes with random signs (exact repeats and pure sign flips), "
-        "sequences 1–12 ops; SPDC::assign_poling_period / with_poling_period histories on the same pool")
+        "sequences 1–12 ops; SPDC::assign_poling_period / with_poling_period histories on the same pool; crystal lengths "
+        "|Λ|·(N+f) with N whole periods in every decade up to 10^5 (weighted to 3·10^4…10^5) and a remainder f log-uniform in "
+        "1e-9…0.5, just below 1, uniform or exactly 0, the poling description reached through every constructor/mutator: count of "
+        "num_domains / poling_domains / poling_domain_lengths against ⌈L/Λ⌉ in the same float division and against N+1 where the "
+        "exact quotient is unambiguous")
 RESIDUAL = "floating-point rounding of the window values and of acos(1−2a²) (measured by the comparison, not proved)"
 
 
